@@ -841,7 +841,11 @@ LEVEL_NOTE = ('Trusted: translate/call_bodies.py (fail-closed ast grammar) and t
               'arithmetic with one absorbing NaN (rounding, inf, BLAS regime >= 50000 entries out of scope); flat real '
               'tensor spaces in the model. Theorems assume x, out and operator-owned elements are distinct objects and '
               'pairwise distinct from user-supplied temporaries; the refutations show these side '
-              'conditions are necessary. Axioms: classical reals + funext as printed.')
+              'conditions are necessary. The link between the executed instance (option Q) and the proved one (option R) is '
+              'proved (Transfer.v), and the hand-written protocol functions are proved equal to interpreters of the '
+              'statement lists regenerated from Operator.__call__/__new__/bridges. N-d shapes and memory layout of '
+              'elements exist only in the probes (6 shape configurations, non-C-contiguous out/x). Axioms: classical '
+              'reals + funext as printed.')
 TECHNIQUE = ('Coq: heap semantics over a poisoned carrier, symbolic execution of source-regenerated `_call` bodies, '
              'structural induction over operator trees; in-Coq differential correspondence; introspection-driven probes')
 
